@@ -160,6 +160,18 @@ func c11(c *Ctx) (*report.Result, error) {
 			}
 		}
 		res.Check(ok, "O11.2", "OnConnectionListUpdate: fresh map, one entry per table key, value = that session's Open", fnPos(c.Prog, f), "connMap[k] = v.Open for k, v := range muxes", why)
+		if ok {
+			// no registered session is filtered out: from the loop body no path returns to the loop head without
+			// the store (a filter on a cached health snapshot, say, shrinks the endpoint set below the registered set,
+			// and nothing republishes the table when the snapshot changes)
+			head := next.Block()
+			isUpd := func(ins ssa.Instruction) bool { _, isU := ins.(*ssa.MapUpdate); return isU }
+			isHead := func(ins ssa.Instruction) bool { return ins == ssa.Instruction(next) }
+			if len(head.Succs) == 2 {
+				r := flow.FindPath(flow.Point{Block: head.Succs[0]}, isHead, isUpd, nil)
+				res.Check(!r.Found, "O11.2", "OnConnectionListUpdate: every registered session becomes an endpoint", instrPos(c.Prog, next), "no path through the loop body skips the store", "a registered session can be left out of the endpoint set (path "+flow.BlockPath(r.Via)+"): the dialable set is then smaller than the registered set until some unrelated table change")
+			}
+		}
 		// the argument map itself is never retained
 		retained := ""
 		for _, r := range *f.Params[1].Referrers() {
